@@ -27,6 +27,27 @@ status_block = "\n".join(out)
 out = []
 out.append("## 9. Seeded changes: which checks catch which\n")
 out.append("Each change was proposed by a fresh sub-agent that saw only the property text and its own scratch worktree, then confirmed here independently (`lib/confirm_seed.py`: demo passes on the unchanged tree, fails with the change, full suite passes with the change) and kept under `seeded/<name>/`. `lib/run_seed.py` runs the property's registered check against a copy of the tree with the patch applied.\n")
+metas = [json.load(open(p)) for p in sorted(glob.glob(os.path.join(V, "seeded", "*", "meta.json")))]
+caught = [m for m in metas if m.get("detected_by")]
+NATIVE_HARNESSES = set()
+for f in glob.glob(os.path.join(V, "kani", "*.rs")):
+    for line in open(f):
+        mm = re.match(r"// @h (\S+) .*tier=native", line)
+        if mm:
+            NATIVE_HARNESSES.add(mm.group(1))
+class _Pat:
+    def search(self, h):
+        return "(native)" in h or h.startswith("native/") or h.split("/")[0] in NATIVE_HARNESSES
+NATIVE_PAT = _Pat()
+def only_native(m):
+    for d in m["detected_by"]:
+        for h in d.split(": ", 1)[-1].split(","):
+            if not NATIVE_PAT.search(h):
+                return False
+    return True
+native = [m for m in caught if only_native(m)]
+out.append("Three rounds (round 1: `Cxx-sK`, 30 changes; round 2: `Cxx-r2sK`, 15 changes for C06 C09 C10 C16 C17; round 3: `Cxx-r3sK`, 15 changes for C05 C07 C08 C13 C15, each round told the earlier rounds' changes and asked for different ones). **%d of %d are caught** by the registered quick check; of those, %d are caught only by a BOUNDED native stand-in or native fallback (§7.9) -- a literal instance happened to expose them -- not by a discharged obligation. The remaining %d are token templates, the proc-macro crate, file I/O, or functions in reach of neither verifier for which no literal instance was written; each row says which.\n" % (len(caught), len(metas), len(native), len(metas) - len(caught)))
+out.append("What the rounds changed in the machinery: round 1 led to the routing contracts (§7.7) and to every format row in C10's quick tier; round 2 to `c09_routing`, `c09_object`, `c17_facade`, `c17_builder`, the native history fallback for Verus and the native run of timed-out literal harnesses; round 3 to the `tier=native` stand-ins for `sanitize`, `break_cycles`, the whole of `convert_rust_extension`, the multi-type arm, and to the C08 defect repaired by fd98916.\n")
 out.append("| seed | change | needs | result of the check |")
 out.append("|------|--------|-------|---------------------|")
 for p in sorted(glob.glob(os.path.join(V, "seeded", "*", "meta.json"))):
